@@ -168,6 +168,17 @@ def binding_selftest(run, behs, kf, consts):
     os.remove(trace)
 
 
+def settle(run, fut):
+    """Result of a side job.  Once a behaviour of the real code that the specification cannot explain has been recorded, the
+    failure of another job (generation of further cases, the design-level model check) does not take the verdict back."""
+    try:
+        return fut.result()
+    except vp.Undecided:
+        if run.violations:
+            return None
+        raise
+
+
 def check(run):
     quick = run.tier == "quick"
     run.build_harness("c09")
@@ -211,7 +222,7 @@ def check(run):
         behsets = []
         base = 0
         for k, g in enumerate(gens):
-            behs = g.result()
+            behs = settle(run, g) or []
             behsets.append(behs)
             if run.violations:
                 continue
@@ -223,7 +234,7 @@ def check(run):
             for kk, v in t.items():
                 tot[kk] = tot.get(kk, 0) + v
         for f in mcf:
-            f.result()
+            settle(run, f)
     run.cov["driver_counters"] = tot
     if run.cov.get("refusals_by_other_call"):
         vp.log("NOTE property=C09: %d refusal(s) came from the other of the two calls (State.VerifyTx / State.DoTx) than the "
